@@ -141,3 +141,33 @@ pub fn matrix_of(w: &ConnectorWrapper) -> &MatrixConnector {
         _ => unreachable!(),
     }
 }
+
+/// A `std::io::Read` over a byte slice that copies element by element.  `impl Read for &[u8]`
+/// uses `copy_from_slice` (memcpy), through which CBMC does not propagate the image's constant
+/// bytes; every decoded length then becomes symbolic.  `Dictionary::read` is generic over the
+/// reader; this is the instantiation the harnesses verify.
+pub struct ByteReader<'a> {
+    pub data: &'a [u8],
+    pub pos: usize,
+    pub end: usize,
+}
+
+impl<'a> ByteReader<'a> {
+    pub fn new(data: &'a [u8], end: usize) -> Self {
+        Self { data, pos: 0, end }
+    }
+}
+
+impl<'a> std::io::Read for ByteReader<'a> {
+    fn read(&mut self, buf: &mut [u8]) -> std::io::Result<usize> {
+        let avail = self.end - self.pos;
+        let n = if buf.len() < avail { buf.len() } else { avail };
+        let mut i = 0;
+        while i < n {
+            buf[i] = self.data[self.pos + i];
+            i += 1;
+        }
+        self.pos += n;
+        Ok(n)
+    }
+}
